@@ -15,3 +15,19 @@ package farm
 //@   ensures hygiene:     keeper.activeInv && keeper.activeWF && keeper.poolsWF && keeper.rulesWF && keeper.rulesOK
 //@   nopanic
 //@ end
+
+// Genesis import (C12, C13): every listed pool is stored with its rules, and every pool whose end height has not passed
+// is put back on the expiry queue at its end height - including a pool that ends at the very height of the import.
+//@ func InitGenesis
+//@   property C12, C13
+//@   requires height >= 0
+//@   modifies ruleF, pools, active, farmers, escrowF, poolSeq, prm
+//@   invariant #1 idx:    rangeindex >= 0 - 1 && rangeindex < len(data.Pools)
+//@   invariant #1 stored: forall j:Int :: 0 <= j && j <= rangeindex ==> has(pools, data.Pools[j].Id)
+//@                          && (height <= data.Pools[j].EndHeight ==> has(active, data.Pools[j].EndHeight, data.Pools[j].Id))
+//@   invariant #2 idx:    rangeindex >= 0 - 1
+//@   invariant #3 idx:    rangeindex >= 0 - 1 && rangeindex < len(data.FarmInfos)
+//@   invariant #4 idx:    rangeindex >= 0 - 1
+//@   ensures pools_imported: forall j:Int :: 0 <= j && j < len(data.Pools) ==> has(pools, data.Pools[j].Id)
+//@   ensures running_pools_queued: forall j:Int :: 0 <= j && j < len(data.Pools) && height <= data.Pools[j].EndHeight ==> has(active, data.Pools[j].EndHeight, data.Pools[j].Id)
+//@ end
